@@ -39,12 +39,17 @@ GOOD = {
     "existing-conversion-type": lambda b: {"x1": unit(b, "x1", definition=b.glob("units/unit_types.py::TemperatureUnitType"))},
     "new-conversion-type": lambda b: {"x1": unit(b, "x1", definition=b.glob("units/unit_types.py::UnitType")), "x2": unit(b, "x2", definition=b.glob("units/unit_types.py::UnitType"))},
     "string-definition": lambda b: {"x1": unit(b, "x1", definition="2*m")},
+    # several classes that were not conversion types before (any class object serves: registration only stores it)
+    "two-new-conversion-types": lambda b: {"x1": unit(b, "x1", definition=b.glob("units/unit_types.py::UnitType")), "x2": unit(b, "x2", definition=b.glob("units/unit.py::Unit"))},
+    "three-new-conversion-types-and-an-existing-one": lambda b: {"x1": unit(b, "x1", definition=b.glob("units/unit_types.py::UnitType")), "x2": unit(b, "x2", definition=b.glob("units/unit.py::Unit")),
+                                                                "x3": unit(b, "x3", definition=b.glob("units/unit_types.py::LogarithmicUnitType")), "x4": unit(b, "x4", definition=b.glob("units/constant.py::Constant"))},
     "empty": lambda b: {},
 }
 BAD = {
     "duplicate-first": lambda b: {"m": unit(b, "m")},
     "duplicate-second": lambda b: {"x1": unit(b, "x1"), "m": unit(b, "m")},
     "duplicate-third-after-type": lambda b: {"x1": unit(b, "x1", definition=b.glob("units/unit_types.py::UnitType")), "x2": unit(b, "x2"), "kg": unit(b, "kg")},
+    "duplicate-after-two-new-types": lambda b: {"x1": unit(b, "x1", definition=b.glob("units/unit_types.py::UnitType")), "x2": unit(b, "x2", definition=b.glob("units/unit.py::Unit")), "s": unit(b, "s")},
     "clash-with-prefixed-symbol": lambda b: {"x1": unit(b, "x1"), "km": unit(b, "km")},
     "new-prefixed-symbol-clashes-with-a-unit": lambda b: {"x1": unit(b, "x1"), "ol": unit(b, "ol", prefixes=b.list(["m"]))},
     "malformed-missing-magnitude": lambda b: {"x1": unit(b, "x1"), "x2": b.dict(dict(dimensions=b.list([1, 0, 0, 0, 0, 0, 0, 0])))},
@@ -63,7 +68,8 @@ def _(c):
     c.ensures("gstate(us, up, ut)[0][:len(old(list(us._keys)))] == old(gstate(us, up, ut)[0])", "existing-rows-untouched")
     c.ensures("list(up._keys) == old(list(up._keys))", "prefix-table-untouched")
     c.ensures("list(self.new_units) == list(units.keys())", "remembers-what-it-registered")
-    c.ensures("list(ut) == list(self.new_types) + old(list(ut)) and all([t not in old(list(ut)) for t in self.new_types])", "remembers-only-the-types-it-added")
+    c.ensures("list(ut)[len(self.new_types):] == old(list(ut)) and all([t not in old(list(ut)) and t in list(ut)[:len(self.new_types)] for t in self.new_types]) "
+              "and len(set(self.new_types)) == len(self.new_types)", "remembers-only-the-types-it-added")
     c.no_raise()
 
 
